@@ -1687,6 +1687,9 @@ fn extra_property_probe<D: Doc>(cx: &mut Cx, env: &mut Env) {
 }
 
 const CORE_DIDS: [&str; 2] = ["did:example:alice", "did:example:bob"];
+// two DIDs of which one is a string prefix of the other (both orders): different DIDs all the same
+const PREFIX_DIDS_A: [&str; 2] = ["did:example:alice", "did:example:alice1"];
+const PREFIX_DIDS_B: [&str; 2] = ["did:example:alice1", "did:example:alice"];
 const IOTA_DIDS: [&str; 2] = [
   "did:iota:0x1111111111111111111111111111111111111111111111111111111111111111",
   "did:iota:rms:0x2222222222222222222222222222222222222222222222222222222222222222",
@@ -1758,6 +1761,10 @@ fn main() {
       let _ = open::<CoreDocument>(&mut cx, &mut env, "E-practical-fragments", 4, 0, &e, false);
     }
     random_walks::<CoreDocument>(&mut cx, &mut env, &mut rng, n_odd, 40);
+  }
+  for dids in [PREFIX_DIDS_A, PREFIX_DIDS_B] {
+    let mut env = Env::new(Uni::new("core", dids, &["f0", "f1", "f2"]));
+    random_walks::<CoreDocument>(&mut cx, &mut env, &mut rng, (n_odd / 2).max(1), 40);
   }
   cx.rep.note("scale", json!(scale));
   cx.rep.note("walks_per_shard", json!(per_shard));
